@@ -48,4 +48,18 @@ CHECKS["C20"] = dict(
           "inputs and the 'no NaN predictions' clause are runtime facts covered by the fits only (partial). domain_safe of DESIGN.md is part of C03."),
     technique="Coq proof over translator-generated Gallina model + exact vm_compute correspondence + dirty-data fits",
     design="4/C20")
+CHECKS["C19"] = dict(
+    text=("Theorems (Coq, structural/mutual induction, unbounded nesting depth) about a Gallina model of make_serializable / deserialize / "
+          "json round trip / Covariance state capture and restore: every value of the property's grammar (scalars incl. NaN, +-inf, -0.0, numpy "
+          "scalars, JAX and NumPy arrays of any rank, shape (also empty) and dtype float64/int64/bool, slices, sets, nested dicts) and every "
+          "covariance expression (any depth, kernel or scalar right operand, any active_dims form on every node) is restored; non-kernel input "
+          "is refused with ValueError. The model is hand-written; it is executed in Coq on ~470 grammar-generated values and kernel expressions "
+          "and every intermediate (serialised form, JSON round trip, restored object) is compared exactly with the implementation, which is "
+          "also checked against the property statement (bitwise value/shape/dtype; identical k and k_grad)."),
+    note=("Trusted: Coq kernel; the hand-written model lib/Serial.v (tie = executable correspondence only, no translator: the functions are "
+          "recursive and comprehension-based); CPython json behaviour as modelled by json_rt. 0-d integer JAX arrays and dict keys that are not "
+          "str are covered by the correspondence run but excluded from the theorem's grammar. Two defects were fixed in /repo (NumPy arrays; "
+          "dtype/shape of empty arrays)."),
+    technique="Coq proof (mutual induction) over hand-written Gallina model + exact vm_compute correspondence",
+    design="4/C19")
 NOT_YET = {}
